@@ -150,6 +150,16 @@ def gen_instance(rng, family):
                 beq = matvec(aeq, xs)
                 lam = [dy(rng, -2, 2) for _ in range(me)]
                 inst["position"] = "equality"
+                if n - me >= 2 and rng.random() < 0.25:
+                    # one variable is moreover fixed by equal bounds at its optimal value (x0 does not know it): the
+                    # minimiser and its certificate are unchanged, the solver works on the remaining variables
+                    i = int(rng.integers(n))
+                    red = np.delete(np.array([[float(v) for v in row] for row in aeq]), i, axis=1)
+                    sv = np.linalg.svd(red, compute_uv=False)
+                    if sv[-1] > 0.3 and sv[0] / sv[-1] < 20:      # the reduced problem is as well posed as the family demands
+                        lo[i] = hi[i] = xs[i]
+                        resid[i] = dy(rng, -1, 1)
+                        inst["position"] = "equality+fixed"
             if family == "unconstrained":
                 inst["position"] = "interior"
             Hx = matvec(H, xs)
